@@ -41,6 +41,7 @@ type Ledger struct {
 	Property    string            `json:"property"`
 	Functions   map[string]string `json:"functions"` // "pkg funcKey" -> "proved" | "partial"
 	Obligations []string          `json:"obligations"`
+	Hashes      map[string]string `json:"vc_hashes,omitempty"` // obligation -> hash of the condition that was discharged
 }
 
 func readJSON(path string, v interface{}) error {
@@ -263,6 +264,7 @@ func cmdCheck(args []string) {
 	secsByFunc := map[string]float64{}
 	var detachedClauses []string
 	var deadReturns []string
+	var identicalVC []string
 	var staleClauses []string
 	var suspectVacuity []string
 	deadBaseline := map[string]int{}
@@ -338,11 +340,21 @@ func cmdCheck(args []string) {
 			if o.Seconds > slowThreshold {
 				slow = append(slow, fmt.Sprintf("%.1fs %s (%s)", o.Seconds, o.name, o.Solver))
 			}
+			if o.Status == "unknown" && haveLedger && o.VCHash != "" && ledger.Hashes[o.name] == o.VCHash {
+				// no solver answered within its limit (a loaded machine), but the condition is character for character the
+				// one the solvers discharged when the ledger was written: it is still valid
+				o.Status, o.Solver = "unsat", "identical-vc(ledger)"
+				identicalVC = append(identicalVC, o.name)
+			}
 			switch o.Status {
 			case "unsat":
 				discharged++
 				bySolver[o.Solver]++
 				newLedger.Obligations = append(newLedger.Obligations, o.name)
+				if newLedger.Hashes == nil {
+					newLedger.Hashes = map[string]string{}
+				}
+				newLedger.Hashes[o.name] = o.VCHash
 				if len(samples) < 6 && (o.Kind == "post" || len(samples) < 3) {
 					samples = append(samples, map[string]interface{}{"obligation": o.name, "source": fmt.Sprintf("%s:%d", shortFile(o.Pos.Filename), o.Pos.Line),
 						"goal_smt": truncate(o.Cond, 400), "solver": o.Solver, "seconds": o.Seconds})
